@@ -48,6 +48,11 @@ def PT(name, leaf, structure, value):
 
 FL = lambda d: ["arr", "Float", d]
 PYTREE_CORPUS = [
+    # the structure name is bound by a tree whose UNION leaf type has a first alternative that fails on shape (its roll-back replaces the
+    # live dictionaries while the tree is being checked); a later parameter with another structure under the same name must be refused
+    dict(params=[PT("x", ["union", [FL("a b"), FL("a")]], "T", ["t", [AR(3), AR(3)]]), PT("y", "int", "T", ["t", [["i", 1], ["i", 2], ["i", 3]]])], ret=None),
+    dict(params=[PT("x", ["union", [FL("a 7"), FL("a b")]], "T", ["d", {"p": AR(3, 5), "q": AR(3, 5)}]), PT("y", "int", "T", ["d", {"p": ["i", 1]}]), P("z", "a")], ret=None, shapes={"z": [3]}),
+    dict(params=[PT("x", ["union", [FL("a b"), FL("a")]], "T", ["t", [AR(3), AR(3)]]), PT("y", "int", "T", ["t", [["i", 1], ["i", 2]]]), P("z", "a")], ret=None, shapes={"z": [4]}),
     # a leaf WIDENS a broadcastable variadic binding made by an earlier parameter, a later leaf fails: the message must show (1, 3)
     dict(params=[P("w", "*#b c"), PT("x", FL("*#b c"), None, ["t", [AR(2, 3, 4), AR(5, 3, 4)]])], ret=None, shapes={"w": [1, 3, 4]}),
     dict(params=[P("w", "*#b c"), PT("x", FL("*#b c"), "T", ["l", [AR(2, 3, 4), AR(2, 3, 9)]]), P("z", "c")], ret=None, shapes={"w": [1, 3, 4], "z": [4]}),
